@@ -22,7 +22,7 @@ TAG_MUT = "C13/mut"
 TAG_CORPUS = "C13/corpus"
 
 TIERS = {
-    "quick": dict(seeds=3, generated=120, mutated=160, d3_every=2, aslr_probe=0, zoo_step=3),
+    "quick": dict(seeds=3, generated=120, mutated=160, d3_every=2, aslr_probe=24, zoo_step=3),
     "thorough": dict(seeds=8, generated=8000, mutated=12000, d3_every=1, aslr_probe=300, zoo_step=1),
 }
 
@@ -587,7 +587,8 @@ def run(tier, seed):
         results.append(res)
         if budget and time.time() - t0 > budget:
             break
-    tot = {"runs": 0, "compiler_panics": 0, "sets_with_diagnostics": 0, "render_configs": 0, "locations_checked": 0}
+    tot = {"runs": 0, "compiler_panics": 0, "sets_with_diagnostics": 0, "render_configs": 0, "locations_checked": 0,
+           "verbose_runs": 0, "named_spans_checked": 0, "messages_checked": 0}
     diag_lists = set()
     by_kind = {}
     multi = 0
@@ -595,7 +596,7 @@ def run(tier, seed):
     per_class = {}
     for res in results:
         for k in tot:
-            tot[k] += res["stats"][k]
+            tot[k] += res["stats"].get(k, 0)
         diag_lists |= {tuple(x) for x in res["stats"]["diag_lists"]}
         by_kind[res["kind"]] = by_kind.get(res["kind"], 0) + 1
         if res["max_imports"] >= 2:
@@ -636,6 +637,9 @@ def run(tier, seed):
         "compiler_panics_normalised": tot["compiler_panics"],
         "render_configurations_run": tot["render_configs"],
         "locations_checked": tot["locations_checked"],
+        "named_spans_checked": tot["named_spans_checked"],
+        "report_messages_checked": tot["messages_checked"],
+        "verbose_mode_runs": tot["verbose_runs"],
         "aslr_probe_sets": aslr_n,
         "aslr_probe_differences": aslr_diff,
         "runs_per_hour": rate_per_hour(tot["runs"], wall),
